@@ -216,7 +216,15 @@ func (w *WEval) term(v ssa.Value) string {
 		}
 		return w.term(x.X) + "[" + w.idxTerm(x.Index) + "]"
 	case *ssa.Convert:
-		return w.term(x.X)
+		if convPreservesBits(x) {
+			return w.term(x.X)
+		}
+		if t := w.term(x.X); strings.HasPrefix(t, "len(") {
+			if b, ok := x.Type().Underlying().(*types.Basic); ok && b.Info()&types.IsInteger != 0 && intWidth(b) >= 32 {
+				return t // a length obtained through a getter: assumption A-len
+			}
+		}
+		return types.TypeString(x.Type(), func(*types.Package) string { return "" }) + "(" + w.term(x.X) + ")"
 	case *ssa.ChangeType:
 		return w.term(x.X)
 	case *ssa.BinOp:
@@ -426,6 +434,31 @@ func (w *WEval) evalSlice(x *ssa.Slice) *Lay {
 		return unk("slice of non-array alloc")
 	}
 	n := int(at.Len())
+	// the slice's own bounds: make([]byte, l, c) is new [c]byte sliced [:l]
+	lo, hi := 0, n
+	if x.Low != nil {
+		k, ok := constInt(x.Low)
+		if !ok {
+			return unk("slice with a non-constant lower bound")
+		}
+		lo = int(k.Int64())
+	}
+	if x.High != nil {
+		k, ok := constInt(x.High)
+		if !ok {
+			return unk("slice with a non-constant upper bound")
+		}
+		hi = int(k.Int64())
+	}
+	if lo != 0 || hi != n {
+		if al.Comment != "makeslice" {
+			return unk("partial slice of a literal")
+		}
+		n = hi - lo
+		if n == 0 {
+			return seqOf()
+		}
+	}
 	switch al.Comment {
 	case "makeslice":
 		// a fixed-size buffer: filled by PutUintN?
@@ -517,10 +550,15 @@ func (w *WEval) evalCall(c *ssa.Call) *Lay {
 		}
 		return &Lay{K: "rev", S: w.term(c.Call.Args[0])}
 	case "bt.LittleEndianBytes":
-		if n, ok := constInt(c.Call.Args[1]); ok {
-			return &Lay{K: "le", W: int(n.Int64()), S: w.term(c.Call.Args[0])}
+		// the helper stores a 32-bit value into a zeroed buffer of the requested width
+		if n, ok := constInt(c.Call.Args[1]); ok && n.Int64() >= 4 && littleEndianBytesShape(sc) {
+			l := &Lay{K: "le", W: 4, S: w.term(c.Call.Args[0])}
+			if n.Int64() == 4 {
+				return l
+			}
+			return seqOf(l, &Lay{K: "zero", W: int(n.Int64()) - 4})
 		}
-		return unk("LittleEndianBytes with non-constant width")
+		return unk("LittleEndianBytes with a width that is not a constant >= 4, or a body other than make+PutUint32")
 	case "(bt.VarInt).Bytes":
 		if k, ok := constInt(c.Call.Args[0]); ok && k.Sign() >= 0 && k.Int64() < 0xfd {
 			return &Lay{K: "const", S: fmt.Sprintf("%02x", k.Int64())}
@@ -940,4 +978,106 @@ func (w *WEval) atomString(t *T) string {
 		return w.term(t.V)
 	}
 	return t.String()
+}
+
+// convPreservesBits: an integer conversion after which the little/big-endian bytes of the
+// result are those of the operand, zero-extended: unsigned to an unsigned or signed type at
+// least as wide, or any conversion between types of equal width. Narrowing conversions and
+// sign extensions stay visible in the term.
+func convPreservesBits(x *ssa.Convert) bool {
+	from, ok1 := x.X.Type().Underlying().(*types.Basic)
+	to, ok2 := x.Type().Underlying().(*types.Basic)
+	if !ok1 || !ok2 || from.Info()&types.IsInteger == 0 || to.Info()&types.IsInteger == 0 {
+		return true // not an integer conversion (string/[]byte etc.): handled by the layout cases
+	}
+	fw, tw := intWidth(from), intWidth(to)
+	if fw == tw {
+		return true
+	}
+	if tw < fw {
+		// assumption A-len (DESIGN 1): slice lengths and element counts are below 2^31
+		return tw >= 32 && isLenCall(x.X)
+	}
+	if from.Info()&types.IsUnsigned != 0 {
+		return true
+	}
+	// signed to wider: value-preserving only for non-negative operands (lengths)
+	return nonNegativeValue(x.X)
+}
+
+func intWidth(b *types.Basic) int {
+	switch b.Kind() {
+	case types.Int8, types.Uint8:
+		return 8
+	case types.Int16, types.Uint16:
+		return 16
+	case types.Int32, types.Uint32:
+		return 32
+	}
+	return 64
+}
+
+func nonNegativeValue(v ssa.Value) bool {
+	switch x := v.(type) {
+	case *ssa.Call:
+		if b, ok := x.Call.Value.(*ssa.Builtin); ok && (b.Name() == "len" || b.Name() == "cap") {
+			return true
+		}
+	case *ssa.Const:
+		return x.Value != nil && x.Value.Kind() == constant.Int && constant.Sign(x.Value) >= 0
+	case *ssa.Phi:
+		return isLoopHeader(x.Block()) // range/counting loop indices
+	case *ssa.BinOp:
+		if x.Op == token.ADD {
+			return nonNegativeValue(x.X) && nonNegativeValue(x.Y)
+		}
+	}
+	return false
+}
+
+// littleEndianBytesShape confirms the helper's body: one make([]byte, l), one
+// binary.LittleEndian.PutUint32(buf, v), buf returned.
+func littleEndianBytesShape(fn *ssa.Function) bool {
+	if len(fn.Blocks) != 1 || len(fn.Params) != 2 {
+		return false
+	}
+	var mk *ssa.MakeSlice
+	puts := 0
+	for _, ins := range fn.Blocks[0].Instrs {
+		switch x := ins.(type) {
+		case *ssa.MakeSlice:
+			if mk != nil || x.Len != ssa.Value(fn.Params[1]) && !isConvOf(x.Len, fn.Params[1]) {
+				return false
+			}
+			mk = x
+		case *ssa.Call:
+			sc := x.Call.StaticCallee()
+			if sc == nil || sc.String() != "(encoding/binary.littleEndian).PutUint32" || len(x.Call.Args) != 3 || x.Call.Args[1] != ssa.Value(mk) || x.Call.Args[2] != ssa.Value(fn.Params[0]) {
+				return false
+			}
+			puts++
+		case *ssa.Return:
+			if len(x.Results) != 1 || x.Results[0] != ssa.Value(mk) {
+				return false
+			}
+		case *ssa.Convert, *ssa.DebugRef, *ssa.UnOp:
+		default:
+			return false
+		}
+	}
+	return mk != nil && puts == 1
+}
+
+func isConvOf(v ssa.Value, p *ssa.Parameter) bool {
+	c, ok := v.(*ssa.Convert)
+	return ok && c.X == ssa.Value(p)
+}
+
+func isLenCall(v ssa.Value) bool {
+	c, ok := v.(*ssa.Call)
+	if !ok {
+		return false
+	}
+	b, ok := c.Call.Value.(*ssa.Builtin)
+	return ok && b.Name() == "len"
 }
